@@ -441,6 +441,30 @@ func c18Property(t *rapid.T, st *Stats) {
 			if after := probe(other); after != before {
 				fail("I7-copy-not-independent", "mutation of one side changed the other:\n before %s\n after  %s", before, after)
 			}
+			// both sides change after the copy (the store hands out copies and goes on inserting, the receiver may
+			// edit its copy): the side mutated first must not see what the other side does afterwards
+			if rapid.Bool().Draw(t, "thenOtherSide") {
+				mutated := probe(victim)
+				for i, n := 0, rapid.IntRange(1, 3).Draw(t, "n2"); i < n; i++ {
+					op := rapid.IntRange(0, 2).Draw(t, "oop2")
+					mm, rec := &m, true
+					if other != &idx {
+						mm, rec = nil, false
+					}
+					switch op {
+					case 0:
+						add(t, other, mm, rec)
+					case 1:
+						rm(t, other, mm, rec)
+					case 2:
+						addChildren(t, other, mm, rec)
+					}
+				}
+				trace = append(trace, "then the other side was mutated")
+				if after := probe(victim); after != mutated {
+					fail("I7-copy-not-independent", "after both sides were mutated, the side mutated first changed again:\n before %s\n after  %s", mutated, after)
+				}
+			}
 		},
 		"": func(*rapid.T) { inv() },
 	})
